@@ -1,5 +1,6 @@
 import Proofs.TrieBuild
 import Proofs.TrieOfTable
+import Proofs.TrieShape
 import Properties.C03Trie
 /-!
 # C03 (trie clause, builder) — lm/search_trie.cc between the ARPA n-grams and the trie memory
@@ -171,5 +172,31 @@ theorem example_build_refines (s : KV.State.State) (w : Word) (hw : w < 6) (hs :
     (KV.Score.fullScore (search f32ToRat (ofTable KV.C03Trie.ExampleBuilt.bt 6 3 192)) s w).1.prob
       = (KV.Score.fullScore (KV.Score.tableSearch (tableOf (ftOf f32ToRat KV.C03Trie.ExampleBuilt.bt 3) 3)) s w).1.prob :=
   (trie_build_refines f32ToRat _ 6 3 192 example_btok example_vals example_shape_ok s w hw hs).1
+
+
+/-! ## Round 5: G2b closed — no layout hypothesis -/
+
+/-- **G2b** — the layout facts follow from the C04 layout model (`Binary.trieSetup`: closed form of the middle loop, widths
+from `RequiredBits`, no `uint8` wrap, regions in file order) whenever the vocabulary bound and the level sizes are below 2^57 -/
+theorem shape_ok (bt : BT) (bound order start : Nat) (sm : SmallOK bt bound order) : ShapeOK bt bound order start :=
+  shapeOK_of_small bt bound order start sm
+
+/-- `Represents (ofTable bt …) (tableOf bt)` with no layout hypothesis -/
+theorem ofTable_represents' (fval : Nat → Rat) (bt : BT) (bound order start : Nat) (ok : BTOK bt bound order) (hv : ValsOK bt)
+    (sm : SmallOK bt bound order) :
+    Represents fval (ofTable bt bound order start) (tableOf (ftOf fval bt order) order) (rngOf bt bound) :=
+  ofTable_represents fval bt bound order start ok hv (shape_ok bt bound order start sm)
+
+open KV.Score KV.State in
+/-- **trie_build_refines'** — FullScore over the memory the model builder writes = FullScore over the bit table; hypotheses
+only about the table (well-formed, 32-bit values, sizes below 2^57) -/
+theorem trie_build_refines' (fval : Nat → Rat) (bt : BT) (bound order start : Nat) (ok : BTOK bt bound order) (hv : ValsOK bt)
+    (sm : SmallOK bt bound order) (s : State) (w : Word) (hw : w < bound) (hs : ∀ x ∈ s.words.take s.length, x < bound) :
+    (fullScore (search fval (ofTable bt bound order start)) s w).1.prob
+        = (fullScore (tableSearch (tableOf (ftOf fval bt order) order)) s w).1.prob ∧
+    (fullScore (search fval (ofTable bt bound order start)) s w).2
+        = (fullScore (tableSearch (tableOf (ftOf fval bt order) order)) s w).2 := by
+  have := trie_build_refines fval bt bound order start ok hv (shape_ok bt bound order start sm) s w hw hs
+  exact ⟨this.1, this.2.2.2.2⟩
 
 end KV.C03TrieBuild
